@@ -486,4 +486,33 @@ def shape_shared_internal_base() -> API:
     return _register(root, [i0], mods)
 
 
-SHAPES = [shape_same_name_two_packages, shape_converted_name_collision, shape_shared_internal_base]
+def shape_literal_or_none_inherited_twice() -> API:
+    """a public method of an internal base whose parameter is `Literal["fast"] | None`, copied into two public subclasses: the type
+    is rendered twice from one API object (rendering must not change the object)"""
+    root = "shpd"
+    i0 = Module(id_=root, name="__init__")
+    m = Module(id_=f"{root}/modes", name="modes")
+    lit_or_none = lambda: T.UnionType([T.LiteralType(["fast"]), T.NamedType("None", "builtins.None")])  # noqa: E731
+    base = _cl(m.id, "_Runner", methods=[
+        lambda cid: _fn(cid, "run", params=[("mode", lit_or_none())], results=[lit_or_none()], method=True)])
+    q = base.id.replace("/", ".")
+    m.classes += [base, _cl(m.id, "Quick", supers=[q]), _cl(m.id, "Slow", supers=[q])]
+    m.global_functions.append(_fn(m.id, "pick_mode", params=[("mode", lit_or_none())], results=[INT]))
+    return _register(root, [i0], [m])
+
+
+def shape_superclass_by_relative_name() -> API:
+    """the superclass of a public class is recorded by a relative dotted name that is not a class id (`core._Base` for the class
+    shpe/core/_Base): the generator finds it by its fuzzy search"""
+    root = "shpe"
+    i0 = Module(id_=root, name="__init__")
+    mc = Module(id_=f"{root}/core", name="core")
+    base = _cl(mc.id, "_Base", methods=[lambda cid: _fn(cid, "describe", results=[STR], method=True)])
+    mc.classes.append(base)
+    mu = Module(id_=f"{root}/user", name="user")
+    mu.classes.append(_cl(mu.id, "Thing", supers=["core._Base"], methods=[lambda cid: _fn(cid, "size", results=[INT], method=True)]))
+    return _register(root, [i0], [mc, mu])
+
+
+SHAPES = [shape_same_name_two_packages, shape_converted_name_collision, shape_shared_internal_base,
+          shape_literal_or_none_inherited_twice, shape_superclass_by_relative_name]
